@@ -1175,8 +1175,7 @@ class C04(Check):
                     break
                 g = it[3]
                 if not g[0]:
-                    hs = "crash"
-                    break
+                    continue             # an empty datagram is ignored
                 if 19 < g[0][0] < 64 and ((g[2] and not g[3]) or g[1][0] == 1):
                     hs = False
                     break
